@@ -30,8 +30,8 @@ def oracle_one(ctx, src, r, astblock=None):
     """model-free: the CLI's behaviour on `src` given the implementation's own front-end verdict"""
     if astblock is None:
         astblock = core.batch("impl", "ast", [src])[0]
-    if astblock.startswith("PANIC") or astblock.startswith("DIED"):
-        return False, "front end crashed: " + astblock.strip()[:200]
+    if astblock.startswith("PANIC") or astblock.startswith("DIED") or astblock.startswith("TIMEOUT"):
+        return False, "front end crashed or did not terminate: " + astblock.strip()[:200]
     if astblock.startswith("ERR"):
         if r["status"] == "timeout":
             return False, "a rejected input did not finish within the time limit"
@@ -67,11 +67,28 @@ def run(ctx, model_ok):
     streams = [("short", shorts), ("unterminated", gens.unterminated()), ("truncations", trunc),
                ("mutations", muts), ("unicode", uni)]
     ctx.cov["exhaustive"] = True
-    cli_budget = 60000 if ctx.tier == "thorough" else 12000
+    cli_budget = 60000 if ctx.tier == "thorough" else 4000
     for label, srcs in streams:
         srcs = list(dict.fromkeys(srcs))
         tie.front(ctx, "tok", srcs, label, model_ok)
         astb, _ = tie.front(ctx, "ast", srcs, label, model_ok)
+        # metamorphic (model-free): a lexical error that src + "\n" reports strictly inside src cannot disappear when the
+        # trailing newline is removed — the front end must reject src too, no later than there
+        if label in ("short", "unicode", "mutations"):
+            bare = [s for s in srcs if s and not s.endswith("\n")]
+            with_nl = core.batch("impl", "ast", [s + "\n" for s in bare])
+            verdict = dict(zip(srcs, astb))
+            for s, bn in zip(bare, with_nl):
+                if bn.startswith("ERR Lex"):
+                    f = bn.split()
+                    l, c = (int(x) for x in f[3].split(":"))
+                    pre_lines = s.split("\n")
+                    inside = l < len(pre_lines) or (l == len(pre_lines) and c <= len(pre_lines[-1]))
+                    v = verdict.get(s, "")
+                    if inside and l >= 1 and not v.startswith("ERR"):
+                        r = core.run_cli(s)
+                        ctx.violation(f"{f[2]} at {f[3]} is reported for the text followed by a newline, but the same text without the "
+                                      f"trailing newline is accepted and run", s, {"cli": r, "with_newline": bn.strip(), "without": v[:200]})
         for s, b in zip(srcs, astb):
             k = klass(b)
             ctx.nontrivial(k)
@@ -90,7 +107,7 @@ def run(ctx, model_ok):
         ctx.count(label + ":cli", len(need))
         ctx.cov["cli_reconfirmed"] += len(need)
         for s, b, r in zip(need, blocks, res):
-            if r["status"] == "timeout" and not b.startswith("ERR"):
+            if r["status"] == "timeout" and not b.startswith("ERR") and not b.startswith("TIMEOUT"):
                 ctx.exclude("accepted_program_still_running_after_5s")   # a valid program may loop; not a front-end matter
             ok, why = oracle_one(ctx, s, r, b)
             if not ok:
